@@ -91,7 +91,17 @@ func (s *swamp) PatchExpired(howMany int32, ops []msgpackpatch.Op, condition *ms
 			continue
 		}
 		if s.expirationTimeBeaconDESC.IsInitialized() {
-			s.expirationTimeBeaconDESC.Add(t)
+			// A treasure that was deleted while it was claimed must not come back
+			// into the DESC index (ReindexExpiration skips it on the ASC side for
+			// the same reason). Deletes hold the treasure's guard while they remove
+			// the key from the key index and from every beacon, so under the guard
+			// the key index tells whether the treasure is still alive: if it is, a
+			// later delete will remove it from DESC again.
+			guardID := t.StartTreasureGuard(true)
+			if s.beaconKey.Get(t.GetKey()) == t {
+				s.expirationTimeBeaconDESC.Add(t)
+			}
+			t.ReleaseTreasureGuard(guardID)
 		}
 	}
 	if s.expirationTimeBeaconDESC.IsInitialized() {
